@@ -378,8 +378,8 @@ class Interp:
             raise Flow("break", node=st)
         elif isinstance(st, ast.Raise):
             raise Flow("raise", U(st.exc) if st.exc else "", st)
-        elif isinstance(st, ast.Pass):
-            return
+        elif isinstance(st, (ast.Pass, ast.Import, ast.ImportFrom)):
+            return  # imported names are resolved by the call hooks
         elif isinstance(st, ast.Delete):
             self.trace.append(("del", U(st), st))
         elif isinstance(st, ast.Try) and self.loop_hook is not None:
